@@ -8,6 +8,8 @@ import (
 	"encoding/json"
 	"fmt"
 	"math/rand"
+	"net/http"
+	"net/http/httptest"
 	"os"
 	"path/filepath"
 	"sort"
@@ -17,6 +19,8 @@ import (
 	"github.com/AliceO2Group/Control/apricot/local"
 	apricotpb "github.com/AliceO2Group/Control/apricot/protos"
 	"github.com/AliceO2Group/Control/configuration/componentcfg"
+
+	"github.com/spf13/viper"
 
 	simconsul "verif/harness/sim/consul"
 	"verif/harness/vlib"
@@ -307,6 +311,16 @@ func c20ResolutionSet(c *vlib.Ctx, idx int64) {
 	varSets := []map[string]string{mkVars("a", false, false), mkVars("b", false, true), mkVars("c", true, false), {}}
 
 	runPatterns := func(svc *local.Service, backend string) {
+		// the same service behind its HTTP front end (apricot/local/servicehttp.go): the routes are driven
+		// through the real router, in-process (the listener the constructor starts is closed at once)
+		viper.Set("httpListenPort", 0)
+		hsrv := local.NewHttpService(svc)
+		_ = hsrv.Close()
+		httpGet := func(path string) (int, string) {
+			rec := httptest.NewRecorder()
+			hsrv.Handler.ServeHTTP(rec, httptest.NewRequest(http.MethodGet, path, nil))
+			return rec.Code, strings.TrimRight(rec.Body.String(), "\n")
+		}
 		for pattern := 0; pattern < 16; pattern++ {
 			pcomp := fmt.Sprintf("%s-p%d", comp, pattern)
 			qs := pcomp + "/" + rt + "/" + role + "/" + entryPath
@@ -328,6 +342,20 @@ func c20ResolutionSet(c *vlib.Ctx, idx int64) {
 			}
 			res, err := svc.ResolveComponentQuery(q)
 			c.Count("resolutions", 1)
+			// GET /components/<component>/<runtype>/<rolename>/<entry>/resolve answers the resolved path
+			{
+				code, body := httpGet("/components/" + qs + "/resolve")
+				c.Count("http_resolutions", 1)
+				wantH := pcomp + "/" + ert + "/" + erole + "/" + entryPath
+				switch {
+				case !eok && code == http.StatusOK:
+					c.Violation("RESOLVE", "http/success-when-none-exists", fmt.Sprintf("GET /components/%s/resolve answered 200 %q although no candidate exists", qs, body), id, desc)
+				case eok && code != http.StatusOK:
+					c.Violation("RESOLVE", "http/failure-when-candidate-exists", fmt.Sprintf("GET /components/%s/resolve answered %d %q although %s exists", qs, code, body, wantH), id, desc)
+				case eok && body != wantH:
+					c.Violation("RESOLVE", "http/wrong-candidate", fmt.Sprintf("GET /components/%s/resolve answered %q, most specific existing is %s", qs, body, wantH), id, desc)
+				}
+			}
 			if !eok {
 				c.Count("resolutions_none_exists", 1)
 				if err == nil {
@@ -353,6 +381,12 @@ func c20ResolutionSet(c *vlib.Ctx, idx int64) {
 			}
 			if raw != tplText(parts) {
 				c.Violation("RESOLVE", "resolved-content-mismatch", fmt.Sprintf("resolved %s content %q want %q", res.Raw(), raw, tplText(parts)), id, desc)
+			}
+			// GET /components/<resolved path> answers the entry's content, verbatim without process=true
+			if code, body := httpGet("/components/" + want); code != http.StatusOK || body != strings.TrimRight(tplText(parts), "\n") {
+				c.Violation("RESOLVE", "http/payload-mismatch", fmt.Sprintf("GET /components/%s answered %d %q, the entry's content is %q", want, code, body, tplText(parts)), id, desc)
+			} else {
+				c.Count("http_payloads", 1)
 			}
 			// templating with exactly the supplied variables; repeated on the same service so that
 			// values leaking from a previous call would show
